@@ -17,6 +17,8 @@ func init() {
 			"every exit of a walk function that signals an error (return r.err()) has recorded an error on all paths in the validation pass; every leaf walker tests null-ness before it tests the JSON kind and, on the null edge, either renders null under Nullable or records the non-null violation; the JSON tree is nulled only in the validation pass (two idempotent array sites frozen); " +
 			"the renderer's bookkeeping stacks (response path, runtime type names, enclosing type names) are balanced on every exit of every walk function. It does not decide JSON validity, key-set equality or projection equality (value level).",
 		Mutants: []Mutant{
+			{Name: "value completion extension does not set the comma flag (seeded change C02-13)", File: "v2/pkg/engine/resolve/resolvable.go", Rule: "C02-R7", Key: "Resolvable.printExtensions/section",
+				Old: "\t\twriteComma = true\n\t\terr := r.printValueCompletionExtension()", New: "\t\terr := r.printValueCompletionExtension()"},
 			{Name: "Object.Copy drops the possible types (the repaired defect F12)", File: "v2/pkg/engine/resolve/node_object.go", Rule: "C02-R6", Key: "Object.Copy/preserves:PossibleTypes",
 				Old: "\t\tPossibleTypes:     o.PossibleTypes,\n", New: ""},
 			{Name: "Array.Copy drops nullability", File: "v2/pkg/engine/resolve/node_array.go", Rule: "C02-R6", Key: "Array.Copy/preserves:Nullable",
@@ -48,6 +50,7 @@ var c02Recorders = map[string]bool{
 
 func runC02(r *fw.Run) {
 	defer c02CopyPreserves(r)
+	defer c02CommaFlags(r)
 	p := r.Prog
 	pk := p.Pkg("resolve")
 	if pk == nil {
@@ -538,4 +541,115 @@ func c02CopyPreserves(r *fw.Run) {
 	}
 	r.Expect("C02-R6", "Copy methods of plan nodes", nCopies, 10)
 	r.Expect("C02-R6", "renderer-read fields of copied nodes", nFields, 20)
+}
+
+// c02CommaFlags (R7, added after a seeded change dropped one `writeComma = true`): where a renderer function separates the
+// optional members of a JSON object with a local flag (`if flag { print(comma) }` before a member), every section that
+// prints a member and is followed by another section testing the flag sets the flag. Otherwise two members are written
+// without a separator for exactly the option combination that enables both.
+func c02CommaFlags(r *fw.Run) {
+	p := r.Prog
+	r.Rule("C02-R7", "in renderer functions that separate optional JSON members with a local comma flag, every member-printing section that precedes another section testing the flag sets the flag to true")
+	info := p.Pkg("resolve").TypesInfo
+	isPrint := func(c *ast.CallExpr) bool {
+		fn := fw.Callee(info, c)
+		if fn == nil || !strings.HasPrefix(fn.Name(), "print") {
+			return false
+		}
+		sig, _ := fn.Type().(*types.Signature)
+		return sig != nil && sig.Recv() != nil && fw.RecvName(sig.Recv().Type()) == "Resolvable"
+	}
+	isCommaPrint := func(st ast.Stmt) bool {
+		es, ok := st.(*ast.ExprStmt)
+		if !ok {
+			return false
+		}
+		c, ok := es.X.(*ast.CallExpr)
+		if !ok || !isPrint(c) || len(c.Args) != 1 {
+			return false
+		}
+		o := fw.RootObj(info, c.Args[0])
+		return o != nil && o.Name() == "comma" && o.Parent() == o.Pkg().Scope()
+	}
+	// flagTest: `if F { print(comma) }` → F
+	flagTest := func(st ast.Stmt) types.Object {
+		is, ok := st.(*ast.IfStmt)
+		if !ok || is.Init != nil || is.Else != nil || len(is.Body.List) != 1 || !isCommaPrint(is.Body.List[0]) {
+			return nil
+		}
+		id, ok := ast.Unparen(is.Cond).(*ast.Ident)
+		if !ok {
+			return nil
+		}
+		return info.Uses[id]
+	}
+	nFlags, nSections := 0, 0
+	for _, fi := range p.Funcs("resolve") {
+		if fi.Decl.Recv == nil || !strings.HasPrefix(fi.Name(), "Resolvable.") {
+			continue
+		}
+		top := fi.Decl.Body.List
+		// which flags are tested in which top-level statement
+		tests := make([]map[types.Object]bool, len(top))
+		flags := map[types.Object]bool{}
+		for i, st := range top {
+			tests[i] = map[types.Object]bool{}
+			fw.WalkAll(st, func(nd ast.Node) bool {
+				if s2, ok := nd.(ast.Stmt); ok {
+					if f := flagTest(s2); f != nil {
+						tests[i][f] = true
+						flags[f] = true
+					}
+				}
+				return true
+			})
+		}
+		for f := range flags {
+			nFlags++
+			ord := 0
+			for i, st := range top {
+				is, ok := st.(*ast.IfStmt)
+				if !ok {
+					continue
+				}
+				prints := false
+				sets := false
+				fw.WalkAll(is.Body, func(nd ast.Node) bool {
+					switch x := nd.(type) {
+					case *ast.CallExpr:
+						if isPrint(x) && !(len(x.Args) == 1 && fw.RootObj(info, x.Args[0]) != nil && fw.RootObj(info, x.Args[0]).Name() == "comma") {
+							prints = true
+						}
+					case *ast.AssignStmt:
+						for j, l := range x.Lhs {
+							if id, ok := l.(*ast.Ident); ok && info.Uses[id] == f && j < len(x.Rhs) {
+								if cv, isC := fw.ConstVal(info, x.Rhs[j]); isC && cv == "true" {
+									sets = true
+								}
+							}
+						}
+					}
+					return true
+				})
+				if !prints {
+					continue
+				}
+				later := false
+				for j := i + 1; j < len(top); j++ {
+					if tests[j][f] {
+						later = true
+					}
+				}
+				if !later {
+					continue
+				}
+				ord++
+				nSections++
+				r.Check(sets, "C02-R7", fi.Name()+"/section"+itoa(ord)+"-sets:"+f.Name(), p.Pos(is.Pos()), "member section "+itoa(ord)+" of "+fi.Name()+" sets "+f.Name(),
+					"this section prints a member of the JSON object but does not set "+f.Name()+", and a later section prints its separator only when the flag is set: when both sections are enabled the two members are written back to back without a comma — the response is not valid JSON (only for that combination of options, which no test enables together)")
+			}
+		}
+	}
+	r.Expect("C02-R7", "comma flags", nFlags, 1)
+	r.Expect("C02-R7", "member sections followed by a flag test", nSections, 6)
 }
